@@ -13,8 +13,8 @@ def modeClass : Mode → String
   | .daemonOverShell => "daemon"
   | .serverSender _ => "server-sender"
   | .serverReceiver _ => "server-receiver"
-  | .client _ rsh => if rsh.isEmpty then "other" else "client-rsh"   -- a client-mode run without a remote shell is
-                                                                     -- seen from outside only through what it copies
+  | .client _ _ => "other"   -- a client-mode run is seen from outside only through what it copies or spawns
+                             -- (the harness's oracle watches both); the comparison is on the role
   | .unmodelled => "unmodelled"
   | _ => "other"
 
